@@ -109,8 +109,17 @@ void __sanitizer_set_death_callback(void (*callback)(void));
 #endif
 #include <signal.h>
 static void crash_flush_cb(void) { vp_log_flush(); }
+#include <execinfo.h>
 static void crash_sig(int sig) {
     vp_log_flush();
+    if (sig == SIGSEGV || sig == SIGBUS || sig == SIGFPE) {
+        /* no sanitizer in this build: leave a backtrace for the offline symboliser */
+        void *bt[40];
+        int n = backtrace(bt, 40);
+        static const char hdr[] = "VH-FAULT backtrace:\n";
+        if (write(2, hdr, sizeof(hdr) - 1) < 0) { }
+        backtrace_symbols_fd(bt, n, 2);
+    }
     signal(sig, SIG_DFL);
     raise(sig);
 }
